@@ -367,7 +367,7 @@ def main(tier='quick', seed=0):
         errors.append(err)
     else:
         for i, fl in enumerate(b['failures']):
-            records.append(dict(name=f'{PROP}/bounded::{fl["kind"]}#{i}', kind='bounded', verdict='failed', backend='bounded', ms=0, inputs=None,
+            records.append(dict(name=f'{PROP}/bounded::{fl["kind"]}#{i}', kind='bounded', verdict='unknown' if fl.get('undecided') else 'failed', backend='bounded', ms=0, inputs=None,
                                 witness=fl, replay=dict(reproduced=True, stdout=json.dumps(fl), script=None), detail=fl))
         binfo = dict(evaluations=b['evaluations'], distinct_nontrivial=b['distinct_nontrivial'], rule=b['rule'], model_strings=b['model_strings'],
                      label='bounded (never counted as proved)', samples=[dict(bounded_case='Category.parse(str(c)) for c in all values up to the stated size')])
